@@ -878,8 +878,20 @@ package sarama
 //@   ensures[removed] ps.msgs[topic] != nil ==> ps.msgs[topic][partition] == nil
 //@   modifies ps.bufferBytes, ps.bufferCount, maps
 
+//@ ghost func truncMs(time.Time) time.Time
+//@ ghost func tsub(time.Time, time.Time) time.Duration
+//@ ghost func tzero(time.Time) bool
 //@ func (ps *produceSet) add(msg) props C16 C04 C05
 //@   returns err
+// (C04) the timestamp: a supplied timestamp is cut to whole milliseconds once, before anything is derived from it; the
+// record carries its distance to the batch's first timestamp, a legacy message (0.10+) the timestamp itself.
+// truncMs, tsub, tzero name time.Time.Truncate(time.Millisecond), Time.Sub and Time.IsZero (T-stdlib: uninterpreted)
+//@   callsite IsZero: effect $result == tzero($recv)
+//@   callsite Truncate: requires[to_whole_milliseconds] $arg0 == 1000000
+//@   callsite Truncate: effect $result == truncMs($recv)
+//@   callsite Sub: effect $result == tsub($recv, $arg0)
+//@   callsite RecordBatch.addRecord: requires[record_carries_the_distance_to_the_first_timestamp @C04] !tzero(msg.Timestamp) ==> $r.TimestampDelta == tsub(truncMs(msg.Timestamp), $recv.FirstTimestamp)
+//@   callsite MessageSet.addMessage: requires[message_carries_the_timestamp @C04] !tzero(msg.Timestamp) && verAtLeast(ps.parent.conf.Version, V0_10_0_0) ==> $msg.Timestamp == truncMs(msg.Timestamp)
 //@   callsite RecordBatch.addRecord: requires[record_carries_key_and_value @C04] (msg.Key != nil ==> $r.Key == encodedOf(msg.Key)) && (msg.Key == nil ==> isnil($r.Key)) && (msg.Value != nil ==> $r.Value == encodedOf(msg.Value)) && (msg.Value == nil ==> isnil($r.Value))
 //@   callsite MessageSet.addMessage: requires[message_carries_key_and_value @C04] (msg.Key != nil ==> $msg.Key == encodedOf(msg.Key)) && (msg.Key == nil ==> isnil($msg.Key)) && (msg.Value != nil ==> $msg.Value == encodedOf(msg.Value)) && (msg.Value == nil ==> isnil($msg.Value))
 //@   requires ps.msgs != nil && 0 <= ps.bufferBytes && ps.bufferBytes <= 2305843009213693952 && 0 <= ps.bufferCount && ps.bufferCount <= 2305843009213693952
@@ -984,7 +996,7 @@ package sarama
 
 //@ func (om *offsetManager) constructRequest() props C06
 //@   returns r
-//@   ensures[header] r != nil ==> r.Version == ite(om.conf.Consumer.Offsets.Retention == 0, 1, 2) && r.ConsumerGroup == om.group && r.ConsumerID == om.memberID && r.ConsumerGroupGeneration == om.generation
+//@   ensures[header @C06 @C07] r != nil ==> r.Version == ite(om.conf.Consumer.Offsets.Retention == 0, 1, 2) && r.ConsumerGroup == om.group && r.ConsumerID == om.memberID && r.ConsumerGroupGeneration == om.generation
 //@   callsite AddBlock: requires[only_dirty] pom.dirty
 //@   callsite AddBlock: requires[pair] $offset == pom.offset && $metadata == pom.metadata && $topic == pom.topic && $partitionID == pom.partition
 //@   callsite AddBlock: requires[under_lock] lockheld(pom.lock)
@@ -1508,25 +1520,27 @@ package sarama
 //@   per_return
 //@   callsite Broker.CreateTopics: requires[to_the_controller_of_this_attempt] $recv == controllerAt(ca, ca.refreshes)
 //@   ensures[success_only_if_broker_said_so] e == nil ==> rsp != nil && haskey(rsp.TopicErrors, topic) && rsp.TopicErrors[topic].Err == ErrNoError
-//@   ensures[refresh_on_not_controller] rsp != nil && ok && topicErr.Err == ErrNotController ==> ca.refreshes == old(ca.refreshes) + 1 && e == topicErr
-//@   ensures[other_errors_unchanged] rsp != nil && ok && topicErr.Err != ErrNoError && topicErr.Err != ErrNotController ==> ca.refreshes == old(ca.refreshes) && e == topicErr
-//@   ensures[incomplete] rsp != nil && err == nil && !ok ==> e == ErrIncompleteResponse
+//@   ensures[refresh_on_not_controller] rsp != nil && err == nil && haskey(rsp.TopicErrors, topic) && rsp.TopicErrors[topic].Err == ErrNotController ==> ca.refreshes == old(ca.refreshes) + 1 && e == rsp.TopicErrors[topic]
+//@   ensures[other_errors_unchanged] rsp != nil && err == nil && haskey(rsp.TopicErrors, topic) && rsp.TopicErrors[topic].Err != ErrNoError && rsp.TopicErrors[topic].Err != ErrNotController ==> ca.refreshes == old(ca.refreshes) && e == rsp.TopicErrors[topic]
+//@   ensures[incomplete] rsp != nil && err == nil && !haskey(rsp.TopicErrors, topic) ==> e == ErrIncompleteResponse
 
 //@ func clusterAdmin.DeleteTopic#lit0() props C19
 //@   returns e
 //@   per_return
 //@   callsite Broker.DeleteTopics: requires[to_the_controller_of_this_attempt] $recv == controllerAt(ca, ca.refreshes)
 //@   ensures[success_only_if_broker_said_so] e == nil ==> rsp != nil && haskey(rsp.TopicErrorCodes, topic) && rsp.TopicErrorCodes[topic] == ErrNoError
-//@   ensures[refresh_on_not_controller] rsp != nil && ok && topicErr == ErrNotController ==> ca.refreshes == old(ca.refreshes) + 1 && e == topicErr
-//@   ensures[other_errors_unchanged] rsp != nil && ok && topicErr != ErrNoError && topicErr != ErrNotController ==> ca.refreshes == old(ca.refreshes) && e == topicErr
+//@   ensures[refresh_on_not_controller] rsp != nil && err == nil && haskey(rsp.TopicErrorCodes, topic) && rsp.TopicErrorCodes[topic] == ErrNotController ==> ca.refreshes == old(ca.refreshes) + 1 && e == rsp.TopicErrorCodes[topic]
+//@   ensures[other_errors_unchanged] rsp != nil && err == nil && haskey(rsp.TopicErrorCodes, topic) && rsp.TopicErrorCodes[topic] != ErrNoError && rsp.TopicErrorCodes[topic] != ErrNotController ==> ca.refreshes == old(ca.refreshes) && e == rsp.TopicErrorCodes[topic]
+//@   ensures[incomplete] rsp != nil && err == nil && !haskey(rsp.TopicErrorCodes, topic) ==> e == ErrIncompleteResponse
 
 //@ func clusterAdmin.CreatePartitions#lit0() props C19
 //@   returns e
 //@   per_return
 //@   callsite Broker.CreatePartitions: requires[to_the_controller_of_this_attempt] $recv == controllerAt(ca, ca.refreshes)
 //@   ensures[success_only_if_broker_said_so] e == nil ==> rsp != nil && haskey(rsp.TopicPartitionErrors, topic) && rsp.TopicPartitionErrors[topic].Err == ErrNoError
-//@   ensures[refresh_on_not_controller] rsp != nil && ok && topicErr.Err == ErrNotController ==> ca.refreshes == old(ca.refreshes) + 1 && e == topicErr
-//@   ensures[other_errors_unchanged] rsp != nil && ok && topicErr.Err != ErrNoError && topicErr.Err != ErrNotController ==> ca.refreshes == old(ca.refreshes) && e == topicErr
+//@   ensures[refresh_on_not_controller] rsp != nil && err == nil && haskey(rsp.TopicPartitionErrors, topic) && rsp.TopicPartitionErrors[topic].Err == ErrNotController ==> ca.refreshes == old(ca.refreshes) + 1 && e == rsp.TopicPartitionErrors[topic]
+//@   ensures[other_errors_unchanged] rsp != nil && err == nil && haskey(rsp.TopicPartitionErrors, topic) && rsp.TopicPartitionErrors[topic].Err != ErrNoError && rsp.TopicPartitionErrors[topic].Err != ErrNotController ==> ca.refreshes == old(ca.refreshes) && e == rsp.TopicPartitionErrors[topic]
+//@   ensures[incomplete] rsp != nil && err == nil && !haskey(rsp.TopicPartitionErrors, topic) ==> e == ErrIncompleteResponse
 
 //@ func isErrNoController(err) props C19
 //@   returns r
@@ -2392,9 +2406,20 @@ package sarama
 //@   returns partition, offset, err
 //@   requires sp.producer != nil && msg != nil
 //@   callsite send.Input: requires[submitted_with_a_fresh_expectation] $value == msg && msg.expectation == expectation && fresh(expectation)
+// (the forwarding goroutines never wait for the caller: the expectation channel has room for the one answer)
+//@   callsite send.Input: requires[expectation_has_room_for_the_answer] cap(msg.expectation) >= 1
 //@   ensures[failure_has_no_position] err != nil ==> partition == -1 && offset == -1
 //@   ensures[success_reports_the_messages_position] err == nil ==> (partition == msg.Partition && offset == msg.Offset) || (partition == -1 && offset == -1)
 // (the second case is an error event whose Err is nil, which the producer never emits)
+//@   nosafety
+
+// SendMessages, submitting goroutine: every message of the batch is submitted once, in order, each with an expectation
+// channel of its own that has room for its one answer (so the goroutines forwarding successes and errors never block
+// on a message whose turn to be collected has not come), and that same channel is queued for collection.
+//@ func syncProducer.SendMessages#lit0() props C01
+//@   requires sp.producer != nil
+//@   callsite send.Input: requires[submitted_with_an_expectation_of_its_own] $value == msgs[$i0] && fresh($value.expectation) && cap($value.expectation) >= 1
+//@   callsite send.expectations: requires[collected_from_the_channel_the_message_carries] $value == msgs[$i0].expectation
 //@   nosafety
 
 // sendAndReceive (C14): the request is sent asking for a response exactly when the caller supplied a response object,
